@@ -196,5 +196,33 @@ PROPS["C13"] = dict(
     assumptions=["system libogg 1.3.5 is correct"],
 )
 
+PROPS["C14"] = dict(
+    engine="rc", engine_name="rc-tape", sources=["props/c14.cpp"], level="exploration", design_ref="3.15",
+    quick=dict(cases=200), thorough=dict(cases=4000),
+    technique="property-based testing (rapidcheck tapes): generated managed configurations, (1) real encodes of generated signals and (2) direct drive of vorbis_bitrate_addblock with generated candidate packet sizes; invariant over every contiguous run of emitted packets plus the reservoir invariant",
+    level_text="Generated managed configurations (max only, min only, both, CBR; default, halved, doubled, 1/64 and 500..4000-bit reservoirs; bias 0..1; with and without average tracking; 1..6 channels, seven rate bands). Arm 1 encodes 2..9 "
+               "signal segments alternating silence, full-band noise, click trains and tones (up to 400k samples). Arm 2 sets up a real managed vorbis_dsp_state/vorbis_block and feeds 200..2000 blocks whose 15 candidate packets have "
+               "generated sizes (monotone, non-monotone, bursts, all equal, zero and 60 kB) and block flags. Oracle: for every contiguous run of packets sum(bits) <= max_rate*T + R + E and >= min_rate*T - R - E, and 0 <= reservoir <= R after every packet.",
+    level_note="T is the run's duration as the manager counts it (half a block per packet). E is the stated quantisation allowance: half a bit per short-block unit (the per-unit quota is rint()ed), 8 bits of byte granularity, and "
+               "max(rate)*(bs1-bs0)/(4*samplerate) for the block-boundary term between the two natural definitions of a packet's duration. Limits and reservoir are read from codec_setup_info.bi (what the manager uses).",
+    rule="case = managed configuration + (signal segments | candidate-size profile); non-trivial = the limiter acted (a packet was truncated or padded, or the reservoir left its resting fill); distinct by hash of the case description",
+    require_labels=["arm: real encode", "arm: direct drive of the rate manager", "max only", "min only", "max and min", "CBR", "limiter acted (truncation, padding or reservoir moved)"],
+    assumptions=["reading of 'duration of those packets' as stated in level_note"],
+)
+
+PROPS["C05"] = dict(
+    engine="rc", engine_name="rc-tape", sources=["props/c05.cpp"], level="exploration", design_ref="3.6",
+    quick=dict(cases=200), thorough=dict(cases=4000),
+    technique="property-based testing (rapidcheck tapes): generated encoder configurations and hostile signals; every header and audio packet is parsed by an independent strict specification-level reader (bit accounting, window flags) and decoded by libvorbis; differential on consumed bits and PCM",
+    level_text="Generated configurations (VBR, managed with hard max/min/CBR, three-step with ctl tweaks, the two-submap 5.1 templates) and signals (silence, full scale, 1000x over range, DC, impulses, denormals, per-channel stretches of digital "
+               "silence). The three headers must be accepted by libvorbis and by the strict parser of vspec.h and agree with the encoder's vorbis_info; every audio packet must be a valid packet whose window flags match its neighbours' block "
+               "sizes; unmanaged packets must be consumed to within their last byte by both the specification-level walk and libvorbis, with no read past the end; managed packets are never rejected, run out of bits only when a hard maximum is "
+               "configured, and carry only zero padding; PCM of the specification-level decode agrees with libvorbis within the C01 bound (while the O(N^2) budget lasts).",
+    level_note="Trusted: vspec.h as the reading of the specification. 'Ran out of bits' is decided by the specification-level walk (libvorbis's codeword look-ahead does not advance at end of packet, so its bit count cannot show it).",
+    rule="case = configuration + signal + per-channel silence pattern + N + write sizes; non-trivial = >= 4 audio packets with at least one long and one short block, or a managed stream with padded/truncated packets or more than 3 distinct packet sizes; distinct by hash of the case description",
+    require_labels=["managed", "unmanaged", "hard maximum configured", "5.1 (two submaps)", "channels silent for stretches", "PCM compared with the reference decoder"],
+    assumptions=["vspec.h is a faithful transcription of the specification"],
+)
+
 NOT_APPLICABLE = {}
 HOOK_COMMITS = []
